@@ -190,6 +190,8 @@ func checkAny(data []byte, o readOutcome, what string) []core.Violation {
 	switch {
 	case o.call.panicked:
 		return []core.Violation{core.V("panic", panicKey(o.call.panicMsg), "%s: ReadFrom panicked: %s; input(%d)=%s", what, o.call.panicMsg, len(data), core.Trunc(core.HexStr(data), 300))}
+	case o.call.timeout && o.call.alloc > allocBound(len(data)):
+		return []core.Violation{core.V("allocation", "alloc", "%s: ReadFrom requested %d bytes from the allocator for an input of %d bytes (bound %d) and had not returned after %v; input=%s", what, o.call.alloc, len(data), allocBound(len(data)), libBudget, core.Trunc(core.HexStr(data), 300))}
 	case o.call.timeout || o.steps:
 		return []core.Violation{core.V("non-termination", "timeout", "%s: ReadFrom did not terminate within its step/time budget; input(%d)=%s", what, len(data), core.Trunc(core.HexStr(data), 300))}
 	}
